@@ -81,6 +81,26 @@ func runEqLaws(m map[string]any) Result {
 			}
 		}
 	}
+	// where the specification pins the relation (classes: equal class = equal value, by construction
+	// and checked by TLC), the relation found must be exactly that
+	if cl, ok := m["classes"].([]any); ok && len(cl) == n {
+		class := make([]int, n)
+		for i := range cl {
+			class[i] = intOf(cl[i])
+		}
+		for i := 0; i < n; i++ {
+			for j := 0; j < n; j++ {
+				want := 0
+				if class[i] == class[j] {
+					want = 1
+				}
+				if eq[i][j] != want {
+					return fail("law", nil, fmt.Sprintf("(%s) == (%s) is %s, but the two numbers are %s", exprs[i], exprs[j],
+						map[int]string{1: "true", 0: "false", -1: "not a boolean"}[eq[i][j]], map[int]string{1: "equal", 0: "different"}[want]))
+				}
+			}
+		}
+	}
 	for i := 0; i < n; i++ {
 		if eq[i][i] == 0 {
 			return fail("law", nil, fmt.Sprintf("== is not reflexive: (%s) == (%s) is false", exprs[i], exprs[i]))
@@ -138,4 +158,12 @@ func rootify(e string) string {
 		out = append(out, ch)
 	}
 	return string(out)
+}
+
+func intOf(v any) int {
+	if n, ok := v.(interface{ Int64() (int64, error) }); ok {
+		x, _ := n.Int64()
+		return int(x)
+	}
+	return 0
 }
